@@ -100,8 +100,16 @@ pub enum AOp {
     ClearChecksum,
     Accessors,
     Quartile(u8),
+    /// tlsh::hash_buf_for (easy function; = new + update + finalize)
+    HashBuf,
+    /// tlsh::compare_with on the two text forms (easy function; parse + compare), optionally one side malformed
+    CompareStr { bad: bool },
+    /// Display into a fixed stack buffer (core::fmt::Write): formatting itself must not allocate
+    DisplayToStack,
+    /// Display of the error values into a fixed stack buffer
+    ErrorDisplay,
 }
-pub const AOP_KINDS: usize = 14;
+pub const AOP_KINDS: usize = 18;
 fn aop_kind(op: &AOp) -> (usize, &'static str) {
     match op {
         AOp::New => (0, "Generator::new"),
@@ -118,6 +126,10 @@ fn aop_kind(op: &AOp) -> (usize, &'static str) {
         AOp::ClearChecksum => (11, "clear_checksum"),
         AOp::Accessors => (12, "accessors"),
         AOp::Quartile(_) => (13, "quartile"),
+        AOp::HashBuf => (14, "hash_buf_for"),
+        AOp::CompareStr { .. } => (15, "compare_with"),
+        AOp::DisplayToStack => (16, "Display::fmt"),
+        AOp::ErrorDisplay => (17, "error Display::fmt"),
     }
 }
 
@@ -143,6 +155,20 @@ fn raw_hash<K: Kind>(raw: &[u8]) -> K::H {
     <K::H as TryFrom<&[u8]>>::try_from(&b[..n]).expect("lenient build accepts any bytes")
 }
 
+/// fmt::Write into a fixed buffer (no allocation on the harness side)
+struct StackBuf {
+    buf: [u8; 200],
+    len: usize,
+}
+impl core::fmt::Write for StackBuf {
+    fn write_str(&mut self, s: &str) -> core::fmt::Result {
+        let n = s.len().min(self.buf.len() - self.len);
+        self.buf[self.len..self.len + n].copy_from_slice(&s.as_bytes()[..n]);
+        self.len += n;
+        Ok(())
+    }
+}
+
 struct RunOut {
     violation: Option<Violation>,
     digest: u64,
@@ -157,6 +183,10 @@ fn run<K: Kind>(h: &Hist) -> RunOut {
     let mut h1 = raw_hash::<K>(&h.raw1);
     let h2 = raw_hash::<K>(&h.raw2);
     let text1: Vec<u8> = h1.to_string().into_bytes();
+    let text1s: String = h1.to_string();
+    let text2: String = h2.to_string();
+    let mut text_bad: String = h2.to_string();
+    text_bad.replace_range(5..6, "g");
     let mut text_scratch: Vec<u8> = Vec::with_capacity(200);
     let mut bin = [0u8; 160];
     let mut out = [0u8; 256];
@@ -264,6 +294,41 @@ fn run<K: Kind>(h: &Hist) -> RunOut {
                 .1
             }
             AOp::Quartile(i) => armed(|| h1.body().quartile(*i as usize % K::BUCKETS)).1,
+            AOp::HashBuf => {
+                let (r, n) = armed(|| K::hash_buf(&data));
+                fnv.write_u64(r.is_ok() as u64);
+                n
+            }
+            AOp::CompareStr { bad } => {
+                let b: &str = if *bad { &text_bad } else { &text2 };
+                let (r, n) = armed(|| K::compare_str(&text1s, b));
+                fnv.write_u64(r.map(|x| x as u64).unwrap_or(u64::MAX));
+                n
+            }
+            AOp::DisplayToStack => {
+                let mut sb = StackBuf { buf: [0; 200], len: 0 };
+                let (r, n) = armed(|| core::fmt::write(&mut sb, format_args!("{}", h1)));
+                fnv.write_u64(r.is_ok() as u64 + sb.len as u64);
+                n
+            }
+            AOp::ErrorDisplay => {
+                let mut sb = StackBuf { buf: [0; 200], len: 0 };
+                let e1 = <K::H as FuzzyHashType>::from_str_bytes(b"T1", None).err();
+                let e2 = K::hash_buf(b"").err();
+                let e3 = h1.store_into_bytes(&mut []).err();
+                armed(|| {
+                    if let Some(e) = &e1 {
+                        let _ = core::fmt::write(&mut sb, format_args!("{e} {e:?}"));
+                    }
+                    if let Some(e) = &e2 {
+                        let _ = core::fmt::write(&mut sb, format_args!("{e} {e:?} {:?}", e.category()));
+                    }
+                    if let Some(e) = &e3 {
+                        let _ = core::fmt::write(&mut sb, format_args!("{e} {e:?}"));
+                    }
+                })
+                .1
+            }
         };
         armed_calls += 1;
         states.push((K::ID as u64) << 16 | (kind as u64) << 8 | (!first_seen[kind]) as u64);
@@ -316,8 +381,17 @@ fn draw_aop(r: &mut Rng, dlen: usize) -> AOp {
         79..=89 => AOp::Compare { nolen: r.chance(1, 3) },
         90..=91 => AOp::MaxDist,
         92..=93 => AOp::ClearChecksum,
-        94..=96 => AOp::Accessors,
-        _ => AOp::Quartile(r.below(256) as u8),
+        94..=95 => AOp::Accessors,
+        96 => AOp::Quartile(r.below(256) as u8),
+        97 => AOp::HashBuf,
+        98 => AOp::CompareStr { bad: r.chance(1, 3) },
+        _ => {
+            if r.chance(1, 2) {
+                AOp::DisplayToStack
+            } else {
+                AOp::ErrorDisplay
+            }
+        }
     }
 }
 
@@ -330,7 +404,7 @@ impl Scenario for C18 {
         "C18"
     }
     fn rule(&self) -> &'static str {
-        "history = (variant, data, two hash values, op sequence over the 14 core operation kinds, thread placement); every op runs inside an armed allocator window; \
+        "history = (variant, data, two hash values, op sequence over the 18 operation kinds (14 core operations + hash_buf_for, compare_with, Display and error Display into a stack buffer), thread placement); every op runs inside an armed allocator window; \
          distinct = distinct history digests; non-trivial = at least 3 armed calls; states = (variant, op kind, first-call-of-this-kind-in-the-run?)"
     }
     fn generate(&self, r: &mut Rng, _index: u64) -> Hist {
@@ -422,6 +496,10 @@ impl Scenario for C18 {
                 AOp::ClearChecksum => json!(["clear_checksum"]),
                 AOp::Accessors => json!(["accessors"]),
                 AOp::Quartile(i) => json!(["quartile", i]),
+                AOp::HashBuf => json!(["hash_buf"]),
+                AOp::CompareStr { bad } => json!(["compare_str", bad]),
+                AOp::DisplayToStack => json!(["display"]),
+                AOp::ErrorDisplay => json!(["error_display"]),
             })
             .collect();
         json!({"variant": VARIANT_NAMES[h.variant as usize], "variant_id": h.variant, "data": h.data.to_json(), "raw1": hex(&h.raw1), "raw2": hex(&h.raw2),
@@ -454,6 +532,10 @@ impl Scenario for C18 {
                 "clear_checksum" => AOp::ClearChecksum,
                 "accessors" => AOp::Accessors,
                 "quartile" => AOp::Quartile(u(1)? as u8),
+                "hash_buf" => AOp::HashBuf,
+                "compare_str" => AOp::CompareStr { bad: b(1)? },
+                "display" => AOp::DisplayToStack,
+                "error_display" => AOp::ErrorDisplay,
                 o => return Err(format!("unknown op {o}")),
             });
         }
